@@ -5,4 +5,4 @@ for d in */; do
   id=${d%/}
   prop=$(python3 -c "import json,re; m=json.load(open('$id/meta.json')); print(re.findall(r'C\d\d', m.get('breaks',''))[0])")
   echo "$id $prop"
-done | xargs -P 4 -L 1 bash -c '/verif/tools/altmut.sh /verif/seeded/$0/patch.diff $0 $1 2>&1 | tail -1'
+done | xargs -P 4 -L 1 bash -c '/verif/work/altmut.sh /verif/seeded/$0/patch.diff $0 $1 2>&1 | tail -1'
